@@ -4,10 +4,23 @@ import ast
 from ..srcmodel import AnalysisError, U, calls_in
 
 
+def visible_methods(repo, rel, clsname):
+    """normalised methods of the class; helpers that are not established (normalise.inventory) and are called from a
+    sibling method are left out: they have been inlined into their callers"""
+    from ..normalise import is_established
+    ms = repo.nmethods(rel, clsname)
+    called = set()
+    for name, fi in repo.methods(rel, clsname).items():
+        for c in calls_in(fi.node):
+            if isinstance(c.func, ast.Attribute) and U(c.func.value) in ('self', clsname):
+                called.add(c.func.attr)
+    return {n: fi for n, fi in ms.items() if is_established(rel, fi.qualname) or n not in called}
+
+
 def find_setup(repo, rel, clsname, attr='model'):
     """The setup method = the method that assigns self.<attr> (the per-call model)."""
     hits = []
-    for name, fi in repo.methods(rel, clsname).items():
+    for name, fi in visible_methods(repo, rel, clsname).items():
         for n in ast.walk(fi.node):
             if isinstance(n, ast.Assign):
                 for t in n.targets:
@@ -23,7 +36,7 @@ def find_setup(repo, rel, clsname, attr='model'):
 def find_solvers(repo, rel, clsname, setup):
     """Solvers = methods (other than setup) that call self.<setup>(...)."""
     out = []
-    for name, fi in repo.methods(rel, clsname).items():
+    for name, fi in visible_methods(repo, rel, clsname).items():
         if fi is setup:
             continue
         if any(U(c.func) == 'self.' + setup.name for c in calls_in(fi.node)):
@@ -38,7 +51,7 @@ def is_setup_call(call, setup):
 def never_none_attrs(repo, rel, clsname):
     """self attributes whose every assignment in the class is a call (constructor) -> never None."""
     vals = {}
-    for name, fi in repo.methods(rel, clsname).items():
+    for name, fi in visible_methods(repo, rel, clsname).items():
         for n in ast.walk(fi.node):
             if isinstance(n, ast.Assign):
                 for t in n.targets:
